@@ -630,4 +630,35 @@ example : splitTags (joinTags tagsEx) =
 -- not closed: a comma outside parentheses (inside quotes only) does separate
 example : closedTag (s "{\"a,b\"}") = false ∧ splitTags (s "{\"a,b\"}") = [s "{\"a", s "b\"}"] := by decide +kernel
 
+
+/-! ## an expression is ONE line, whatever delimiters its text holds
+
+Where a `match:` / `let:` / `field:` value ends is decided by the line, never by counting what is inside it: a string
+literal may hold an opening parenthesis without its partner (`PAYPAL (`, an escaped regex parenthesis, a smiley), a
+closing one alone, brackets, braces, the other kind of quote.  The swap / layout theorems above are stated for EVERY line
+text, so they cover such lines; the examples pin the reading on concrete files (the demonstration file of the
+"wrapped expressions" regression class), in both property orders. -/
+
+def fileUnbalanced : List Str := [s "[Paypal]", s "match: contains(\"PAYPAL (\")", s "category: Shopping", s "tags: online, paypal",
+  s "", s "[Refund]", s "let: r = regex(\"\\\\(REFUND\")", s "match: r and amount < 0", s "category: Income", s "priority: 60",
+  s "field: note = \"}])\"", s "", s "[Smiley]", s "match: contains(\":(\") or contains(\"it's\")", s "tags: mood"]
+
+/-- three rules with exactly the stated properties: nothing after an expression line is swallowed by it -/
+example : Impl.parseRulesFile veAll fileUnbalanced = .ok
+    { rules := [{ name := s "Paypal", merchant := s "Paypal", category := s "Shopping", subcategory := [],
+                  tags := [s "online", s "paypal"], priority := 50, matchExpr := s "contains(\"PAYPAL (\")", lets := [], fields := [] },
+                { name := s "Refund", merchant := s "Refund", category := s "Income", subcategory := [], tags := [],
+                  priority := 60, matchExpr := s "r and amount < 0", lets := [(s "r", s "regex(\"\\\\(REFUND\")")],
+                  fields := [(s "note", s "\"}])\"")] },
+                { name := s "Smiley", merchant := s "Smiley", category := [], subcategory := [], tags := [s "mood"],
+                  priority := 50, matchExpr := s "contains(\":(\") or contains(\"it's\")", lets := [], fields := [] }],
+      variables := [], transforms := [] } := by decide +kernel
+
+/-- the same file with every expression line moved to the END of its section (the only order a naive continuation
+scanner reads correctly) parses to the same rules -/
+example : Impl.parseRulesFile veAll [s "[Paypal]", s "category: Shopping", s "tags: online, paypal", s "match: contains(\"PAYPAL (\")",
+    s "[Refund]", s "category: Income", s "priority: 60", s "let: r = regex(\"\\\\(REFUND\")", s "match: r and amount < 0",
+    s "field: note = \"}])\"", s "[Smiley]", s "tags: mood", s "match: contains(\":(\") or contains(\"it's\")"]
+    = Impl.parseRulesFile veAll fileUnbalanced := by decide +kernel
+
 end TallyVerif.Props.C17
